@@ -4,4 +4,1112 @@ import CoreBGP.Spec.Wire
 namespace CoreBGP.Lemmas
 open CoreBGP CoreBGP.Model
 
+/-! ## header / NOTIFICATION -/
+
+theorem be16Bytes_len16 (n : Nat) (h : n < 65536) : be16Bytes (len16 n) = Spec.u16 n := by
+  simp [be16Bytes, len16, Spec.u16, UInt16.toNat_ofNat', Nat.mod_eq_of_lt h]
+
+theorem prependHeader_frame (m : Bytes) (t : UInt8) (h : m.length + 19 < 65536) :
+    prependHeader m t = Spec.frame t m := by
+  unfold prependHeader Spec.frame Spec.marker
+  rw [Gen.headerLength, be16Bytes_len16 _ h, Nat.add_comm]
+
+theorem encodeNotifBody_eq (n : Notif) : encodeNotifBody n = Spec.notifBody n := by
+  cases n with
+  | mk c s d => cases d <;> simp [encodeNotifBody, Spec.notifBody]
+
+
+/-! ## add-path -/
+
+theorem decodeAddPath4_some (a b c d : UInt8) (h : d = 1 ∨ d = 2 ∨ d = 3) :
+    decodeAddPath4 a b c d = some ⟨UInt16.ofNat (Spec.n16 a b), c, decide (d = 2 ∨ d = 3), decide (d = 1 ∨ d = 3)⟩ := by
+  rcases h with h | h | h <;> subst h <;> simp [decodeAddPath4, be16, Spec.n16]
+
+theorem decodeAddPath4_none (a b c d : UInt8) (h : ¬ (d = 1 ∨ d = 2 ∨ d = 3)) :
+    decodeAddPath4 a b c d = none := by
+  simp only [not_or] at h
+  simp [decodeAddPath4, h]
+
+theorem addPathLoop_iff : ∀ (n : Nat) (b : Bytes) (acc ts : List AddPathTuple), b.length ≤ n →
+    (decodeAddPathLoop b acc = .ok ts ↔ ∃ ts', Spec.parseAddPath b = some ts' ∧ ts = acc ++ ts') := by
+  intro n
+  induction n with
+  | zero =>
+    intro b acc ts h
+    have : b = [] := List.eq_nil_of_length_eq_zero (by omega)
+    subst this
+    simp [decodeAddPathLoop, Spec.parseAddPath, eq_comm]
+  | succ n ih =>
+    intro b acc ts h
+    match b, h with
+    | [], _ => simp [decodeAddPathLoop, Spec.parseAddPath, eq_comm]
+    | [_], _ => simp [decodeAddPathLoop, Spec.parseAddPath, openErr0]
+    | [_, _], _ => simp [decodeAddPathLoop, Spec.parseAddPath, openErr0]
+    | [_, _, _], _ => simp [decodeAddPathLoop, Spec.parseAddPath, openErr0]
+    | a :: b :: c :: d :: rest, h =>
+      by_cases hd : d = 1 ∨ d = 2 ∨ d = 3
+      · simp only [decodeAddPathLoop, decodeAddPath4_some a b c d hd, Spec.parseAddPath, if_pos hd]
+        rw [ih rest _ ts (by simp at h; omega)]
+        cases Spec.parseAddPath rest <;> simp
+      · simp [decodeAddPathLoop, decodeAddPath4_none a b c d hd, Spec.parseAddPath, if_neg hd, openErr0]
+
+theorem parseAddPath_len : ∀ (n : Nat) (b : Bytes) ts, b.length ≤ n → Spec.parseAddPath b = some ts → b.length % 4 = 0 := by
+  intro n
+  induction n with
+  | zero =>
+    intro b ts h _
+    have : b = [] := List.eq_nil_of_length_eq_zero (by omega)
+    subst this; rfl
+  | succ n ih =>
+    intro b ts h hp
+    match b, h, hp with
+    | [], _, _ => rfl
+    | [_], _, hp => simp [Spec.parseAddPath] at hp
+    | [_, _], _, hp => simp [Spec.parseAddPath] at hp
+    | [_, _, _], _, hp => simp [Spec.parseAddPath] at hp
+    | a :: b :: c :: d :: rest, h, hp =>
+      simp only [Spec.parseAddPath] at hp
+      split at hp
+      · cases hr : Spec.parseAddPath rest with
+        | none => simp [hr] at hp
+        | some ts' =>
+          have := ih rest ts' (by simp at h; omega) hr
+          simp; omega
+      · simp at hp
+
+theorem addpath_decode_iff' (b : Bytes) (ts : List AddPathTuple) :
+    decodeAddPathTuples b = .ok ts ↔ Spec.parseAddPathCap b = some ts := by
+  unfold decodeAddPathTuples Spec.parseAddPathCap
+  by_cases hb : b = []
+  · subst hb; simp [openErr0]
+  · have hl : b.length ≠ 0 := by simpa using hb
+    simp only [hb, if_false]
+    by_cases hm : b.length % 4 = 0
+    · have h1 : (b.length = 0 || b.length % 4 ≠ 0) = false := by simp [hl, hm]
+      rw [h1, if_neg (by simp), addPathLoop_iff b.length b [] ts (Nat.le_refl _)]
+      simp [eq_comm]
+    · have : Spec.parseAddPath b ≠ some ts := fun h => hm (parseAddPath_len _ b ts (Nat.le_refl _) h)
+      simp [hm, openErr0, this]
+
+
+theorem n16_u16 (x : UInt16) :
+    UInt16.ofNat (Spec.n16 (UInt8.ofNat (x.toNat / 256)) (UInt8.ofNat (x.toNat % 256))) = x := by
+  apply UInt16.toNat_inj.1
+  have := x.toNat_lt
+  simp only [Spec.n16, UInt16.toNat_ofNat', UInt8.toNat_ofNat']
+  omega
+
+theorem be16Bytes_eq (x : UInt16) : be16Bytes x = Spec.u16 x.toNat := rfl
+theorem be32Bytes_eq (x : UInt32) : be32Bytes x = Spec.u32 x.toNat := rfl
+
+theorem parseAddPath_encode (ts : List AddPathTuple) (hv : ∀ t ∈ ts, t.tx = true ∨ t.rx = true) :
+    Spec.parseAddPath (ts.map encodeAddPathTuple).flatten = some ts := by
+  induction ts with
+  | nil => simp [Spec.parseAddPath]
+  | cons t ts ih =>
+    have ih := ih (fun t' ht' => hv t' (List.mem_cons_of_mem _ ht'))
+    have ht := hv t List.mem_cons_self
+    obtain ⟨afi, safi, tx, rx⟩ := t
+    simp only [List.map_cons, List.flatten_cons, encodeAddPathTuple, be16Bytes, List.cons_append, List.nil_append]
+    cases tx <;> cases rx <;> simp [Spec.parseAddPath, ih, n16_u16] at ht ⊢
+
+theorem addpath_encode' (ts : List AddPathTuple) (ws : List Bytes) (h : ts.mapM Spec.addPathWire = some ws) :
+    newAddPathCapability ts = ⟨69, ws.flatten⟩ := by
+  unfold newAddPathCapability
+  simp only [Gen.CAP_ADD_PATH, Cap.mk.injEq, true_and]
+  induction ts generalizing ws with
+  | nil => simp at h; subst h; rfl
+  | cons t ts ih =>
+    simp only [List.mapM_cons] at h
+    cases h1 : Spec.addPathWire t with
+    | none => simp [h1] at h
+    | some w =>
+      cases h2 : ts.mapM Spec.addPathWire with
+      | none => simp [h1, h2] at h
+      | some ws' =>
+        simp [h1, h2] at h
+        subst h
+        simp only [List.map_cons, List.flatten_cons, ih ws' h2]
+        congr 1
+        obtain ⟨afi, safi, tx, rx⟩ := t
+        cases tx <;> cases rx <;> simp [Spec.addPathWire, encodeAddPathTuple, be16Bytes, Spec.u16] at h1 ⊢ <;> exact h1
+
+/-! ## validate -/
+
+theorem n32_lt (a b c d : UInt8) : Spec.n32 a b c d < 4294967296 := by
+  have := a.toNat_lt; have := b.toNat_lt; have := c.toNat_lt; have := d.toNat_lt
+  simp only [Spec.n32]; omega
+
+theorem be32_eq_iff (a b c d : UInt8) (r : UInt32) : be32 a b c d = r ↔ Spec.n32 a b c d = r.toNat := by
+  have := n32_lt a b c d
+  rw [← UInt32.toNat_inj]
+  simp only [be32, UInt32.toNat_ofNat']
+  show (Spec.n32 a b c d) % 2^32 = _ ↔ _
+  rw [Nat.mod_eq_of_lt (by omega)]
+
+/-- the four-octet-AS capabilities among `cs` -/
+def four (cs : List Cap) : List Cap := cs.filter fun c => c.code = 65
+
+theorem validateCaps_spec (r : UInt32) : ∀ (cs : List Cap) (found : Bool),
+    (∃ f, validateCaps r cs found = .ok f ∧ f = (found || !(four cs).isEmpty) ∧
+        (∀ c ∈ four cs, Spec.capAS c = some r.toNat)) ∨
+    (validateCaps r cs found = .error ⟨2, 2, []⟩ ∧ ∃ c ∈ four cs, ∃ v, Spec.capAS c = some v ∧ v ≠ r.toNat) ∨
+    (validateCaps r cs found = .error ⟨2, 0, []⟩ ∧ ∃ c ∈ four cs, Spec.capAS c = none) := by
+  intro cs
+  induction cs with
+  | nil => intro found; left; simp [validateCaps, four]
+  | cons c cs ih =>
+    intro found
+    obtain ⟨code, value⟩ := c
+    by_cases hc : code = 65
+    · subst hc
+      have h4 : four (⟨65, value⟩ :: cs) = ⟨65, value⟩ :: four cs := by simp [four]
+      rw [h4]
+      by_cases hv : ∃ a b cc d, value = [a, b, cc, d]
+      · obtain ⟨a, b, cc, d, rfl⟩ := hv
+        by_cases hr : be32 a b cc d = r
+        · have hv : validateCaps r (⟨65, [a, b, cc, d]⟩ :: cs) found = validateCaps r cs true := by
+            simp [validateCaps, Gen.CAP_FOUR_OCTET_AS, hr]
+          have hcap : Spec.capAS ⟨65, [a, b, cc, d]⟩ = some r.toNat := by
+            simp [Spec.capAS, (be32_eq_iff a b cc d r).1 hr]
+          rw [hv]
+          rcases ih true with ⟨f, h1, h2, h3⟩ | ⟨h1, c, hc, v, h2⟩ | ⟨h1, c, hc, h2⟩
+          · left; refine ⟨f, h1, ?_, ?_⟩
+            · simp [h2]
+            · intro c hc; rcases List.mem_cons.1 hc with rfl | hc
+              · exact hcap
+              · exact h3 c hc
+          · right; left; exact ⟨h1, c, List.mem_cons_of_mem _ hc, v, h2⟩
+          · right; right; exact ⟨h1, c, List.mem_cons_of_mem _ hc, h2⟩
+        · right; left
+          refine ⟨by simp [validateCaps, Gen.CAP_FOUR_OCTET_AS, hr, Gen.NOTIF_CODE_OPEN_MESSAGE_ERR, Gen.NOTIF_SUBCODE_BAD_PEER_AS], _, List.mem_cons_self, Spec.n32 a b cc d, by simp [Spec.capAS], ?_⟩
+          exact fun h => hr ((be32_eq_iff a b cc d r).2 h)
+      · right; right
+        refine ⟨?_, _, List.mem_cons_self, ?_⟩
+        · unfold validateCaps
+          simp only [Gen.CAP_FOUR_OCTET_AS, if_true]
+          split
+          · exact absurd ⟨_, _, _, _, rfl⟩ hv
+          · rfl
+        · unfold Spec.capAS
+          split
+          · exact absurd ⟨_, _, _, _, ‹_›⟩ hv
+          · rfl
+    · have h4 : four (⟨code, value⟩ :: cs) = four cs := by simp [four, hc]
+      have hv : validateCaps r (⟨code, value⟩ :: cs) found = validateCaps r cs found := by
+        simp [validateCaps, Gen.CAP_FOUR_OCTET_AS, hc]
+      rw [h4, hv]; exact ih found
+
+theorem fourOctetCaps_eq (o : OpenMsg) : Spec.fourOctetCaps o = four (openCaps o) := rfl
+
+theorem acceptable_iff (o : OpenMsg) (cfg : Spec.PeerCfg) :
+    Spec.AcceptableOpen o cfg ↔
+      o.version = 4 ∧
+      ¬ ((o.asn.toNat ≠ 23456 ∧ o.asn.toNat ≠ cfg.remoteAS.toNat) ∨
+          (∃ c ∈ Spec.fourOctetCaps o, ∃ v, Spec.capAS c = some v ∧ v ≠ cfg.remoteAS.toNat) ∨
+          (o.asn.toNat = 23456 ∧ Spec.fourOctetCaps o = [])) ∧
+      ¬ (o.holdTime.toNat = 1 ∨ o.holdTime.toNat = 2) ∧
+      ¬ (o.bgpID.toNat / 16777216 / 16 = 14 ∨ (cfg.localAS = cfg.remoteAS ∧ o.bgpID = cfg.localID)) ∧
+      ¬ (∃ c ∈ Spec.fourOctetCaps o, Spec.capAS c = none) ∧
+      Spec.fourOctetCaps o ≠ [] := by
+  unfold Spec.AcceptableOpen Spec.openSemFaults
+  simp only [List.append_eq_nil_iff, ite_eq_right_iff, List.cons_ne_nil, imp_false, and_assoc, Decidable.not_not]
+  
+
+theorem asn_cond (asn : UInt16) (r : UInt32) :
+    ((!decide (asn = Gen.asTrans) && decide (asn.toUInt32 ≠ r)) = true) ↔
+      (asn.toNat ≠ 23456 ∧ asn.toNat ≠ r.toNat) := by
+  have h1 : asn = Gen.asTrans ↔ asn.toNat = 23456 := by
+    rw [← UInt16.toNat_inj]; rfl
+  have h2 : asn.toUInt32 = r ↔ asn.toNat = r.toNat := by
+    rw [← UInt32.toNat_inj, UInt16.toNat_toUInt32]
+  simp only [Bool.and_eq_true, Bool.not_eq_true', decide_eq_false_iff_not, decide_eq_true_eq, ne_eq, h1, h2]
+
+theorem hold_cond (h : UInt16) :
+    ((decide (h < 3) && decide (h ≠ 0)) = true) ↔ (h.toNat = 1 ∨ h.toNat = 2) := by
+  simp only [Bool.and_eq_true, decide_eq_true_eq, ne_eq, UInt16.lt_iff_toNat_lt, ← UInt16.toNat_inj]
+  show h.toNat < 3 ∧ ¬ h.toNat = 0 ↔ _
+  omega
+
+theorem mcast_cond (id : UInt32) : isMulticast4 id = true ↔ id.toNat / 16777216 / 16 = 14 := by
+  simp only [isMulticast4, decide_eq_true_eq, Nat.div_div_eq_div_mul]
+
+
+theorem faultApplies_of_mem (n : Notif) (fs : List (Nat × Nat × Option Bytes)) (c s : Nat) (d : Option Bytes)
+    (hm : (c, s, d) ∈ fs) (hc : n.code.toNat = c) (hs : n.sub.toNat = s)
+    (hd : ∀ d', d = some d' → n.data = d') : Spec.faultApplies n fs = true := by
+  unfold Spec.faultApplies
+  rw [List.any_eq_true]
+  refine ⟨_, hm, ?_⟩
+  cases d with
+  | none => simp [hc, hs]
+  | some d' => simp [hc, hs, hd d' rfl]
+
+theorem validateOpen_cases (o : OpenMsg) (lid las ras : UInt32) :
+    (validateOpen o lid las ras = none ∧ Spec.openSemFaults o ⟨lid, las, ras⟩ = []) ∨
+    (∃ n, validateOpen o lid las ras = some n ∧
+      Spec.faultApplies n (Spec.openSemFaults o ⟨lid, las, ras⟩) = true) := by
+  by_cases hv : o.version = 4
+  case neg =>
+    right
+    refine ⟨_, by unfold validateOpen; rw [if_pos hv], ?_⟩
+    apply faultApplies_of_mem _ _ 2 1 (some [0, 4])
+    · simp [Spec.openSemFaults, hv]
+    · rfl
+    · rfl
+    · intro d' h; cases h; rfl
+  unfold validateOpen
+  simp only [hv, ne_eq, not_true, if_false]
+  by_cases h2 : (!decide (o.asn = Gen.asTrans) && decide ¬o.asn.toUInt32 = ras) = true
+  case pos =>
+    right
+    refine ⟨_, by rw [if_pos h2], ?_⟩
+    have h2' := (asn_cond o.asn ras).1 h2
+    apply faultApplies_of_mem _ _ 2 2 none
+    · simp [Spec.openSemFaults, h2']
+    · rfl
+    · rfl
+    · intro d' h; cases h
+  rw [if_neg h2]
+  by_cases h3 : (decide (o.holdTime < 3) && decide ¬o.holdTime = 0) = true
+  case pos =>
+    right
+    refine ⟨_, by rw [if_pos h3], ?_⟩
+    have h3' := (hold_cond o.holdTime).1 h3
+    apply faultApplies_of_mem _ _ 2 6 none
+    · simp [Spec.openSemFaults, h3']
+    · rfl
+    · rfl
+    · intro d' h; cases h
+  rw [if_neg h3]
+  by_cases h4 : isMulticast4 o.bgpID = true
+  case pos =>
+    right
+    refine ⟨_, by rw [if_pos h4], ?_⟩
+    have h4' := (mcast_cond o.bgpID).1 h4
+    apply faultApplies_of_mem _ _ 2 3 none
+    · simp [Spec.openSemFaults, h4']
+    · rfl
+    · rfl
+    · intro d' h; cases h
+  rw [if_neg h4]
+  by_cases h5 : (decide (las = ras) && decide (lid = o.bgpID)) = true
+  case pos =>
+    right
+    refine ⟨_, by rw [if_pos h5], ?_⟩
+    have h5' : las = ras ∧ o.bgpID = lid := by
+      simp only [Bool.and_eq_true, decide_eq_true_eq] at h5; exact ⟨h5.1, h5.2.symm⟩
+    apply faultApplies_of_mem _ _ 2 3 none
+    · simp [Spec.openSemFaults, h5']
+    · rfl
+    · rfl
+    · intro d' h; cases h
+  rw [if_neg h5]
+  have h2' := fun h => h2 ((asn_cond o.asn ras).2 h)
+  have h3' := fun h => h3 ((hold_cond o.holdTime).2 h)
+  have h4' := fun h => h4 ((mcast_cond o.bgpID).2 h)
+  have h5' : ¬ (las = ras ∧ o.bgpID = lid) := by
+    simp only [Bool.and_eq_true, decide_eq_true_eq] at h5; exact fun h => h5 ⟨h.1, h.2.symm⟩
+  rcases validateCaps_spec ras (openCaps o) false with ⟨f, h1, hf, hall⟩ | ⟨h1, c, hc, v, hcv⟩ | ⟨h1, c, hc, hcv⟩
+  · rw [h1]
+    by_cases hnil : four (openCaps o) = []
+    · have hf' : f = false := by simp [hf, hnil]
+      subst hf'
+      right
+      by_cases ha : o.asn = Gen.asTrans
+      · refine ⟨⟨Gen.NOTIF_CODE_OPEN_MESSAGE_ERR, Gen.NOTIF_SUBCODE_BAD_PEER_AS, []⟩, by simp [ha], ?_⟩
+        have ha' : o.asn.toNat = 23456 := by rw [ha]; rfl
+        apply faultApplies_of_mem _ _ 2 2 none
+        · simp [Spec.openSemFaults, fourOctetCaps_eq, ha', hnil]
+        · rfl
+        · rfl
+        · intro d' h; cases h
+      · refine ⟨⟨Gen.NOTIF_CODE_OPEN_MESSAGE_ERR, Gen.NOTIF_SUBCODE_UNSUPPORTED_CAPABILITY,
+                  encodeCap (fourOctetASCap ras)⟩, by simp [ha], ?_⟩
+        apply faultApplies_of_mem _ _ 2 7 (some ([65, 4] ++ Spec.u32 ras.toNat))
+        · simp [Spec.openSemFaults, fourOctetCaps_eq, hnil]
+        · rfl
+        · rfl
+        · intro d' h; cases h; rfl
+    · have hf' : f = true := by
+        cases h : four (openCaps o) with
+        | nil => exact absurd h hnil
+        | cons _ _ => simp [hf, h]
+      subst hf'
+      left
+      refine ⟨by simp, ?_⟩
+      apply (acceptable_iff o ⟨lid, las, ras⟩).2
+      refine ⟨hv, ?_, h3', ?_, ?_, hnil⟩
+      · rintro (h | ⟨c, hc, v, hcv, hne⟩ | ⟨_, h⟩)
+        · exact h2' h
+        · have := hall c hc; rw [hcv] at this; exact hne (Option.some.inj this)
+        · exact hnil h
+      · rintro (h | h)
+        · exact h4' h
+        · exact h5' h
+      · rintro ⟨c, hc, hcv⟩
+        have := hall c hc; rw [hcv] at this; cases this
+  · rw [h1]
+    right
+    refine ⟨_, rfl, ?_⟩
+    apply faultApplies_of_mem _ _ 2 2 none
+    · have : ∃ c ∈ Spec.fourOctetCaps o, ∃ v, Spec.capAS c = some v ∧ v ≠ ras.toNat := ⟨c, hc, v, hcv⟩
+      simp only [Spec.openSemFaults, this, or_true, true_or, if_true]
+      simp
+    · rfl
+    · rfl
+    · intro d' h; cases h
+  · rw [h1]
+    right
+    refine ⟨_, rfl, ?_⟩
+    apply faultApplies_of_mem _ _ 2 0 none
+    · have : ∃ c ∈ Spec.fourOctetCaps o, Spec.capAS c = none := ⟨c, hc, hcv⟩
+      simp only [Spec.openSemFaults, this, if_true]
+      simp
+    · rfl
+    · rfl
+    · intro d' h; cases h
+
+/-! ## TLV sequences (spec side) -/
+
+theorem tlvs_nil (f : Nat) : Spec.tlvs f [] = some [] := by
+  cases f <;> rfl
+
+theorem tlvs_single (f : Nat) (x : UInt8) : Spec.tlvs f [x] = none := by
+  cases f <;> rfl
+
+theorem tlvs_cons (f : Nat) (t l : UInt8) (rest : Bytes) :
+    Spec.tlvs (f + 1) (t :: l :: rest) =
+      if rest.length < l.toNat then none
+      else (Spec.tlvs f (rest.drop l.toNat)).map ((t, rest.take l.toNat) :: ·) := rfl
+
+theorem tlvs_fuel : ∀ (f1 f2 : Nat) (b : Bytes), b.length ≤ f1 → b.length ≤ f2 →
+    Spec.tlvs f1 b = Spec.tlvs f2 b := by
+  intro f1
+  induction f1 with
+  | zero =>
+    intro f2 b h1 _
+    have : b = [] := List.eq_nil_of_length_eq_zero (by omega)
+    subst this; rw [tlvs_nil, tlvs_nil]
+  | succ f1 ih =>
+    intro f2 b h1 h2
+    match b, h1, h2 with
+    | [], _, _ => rw [tlvs_nil, tlvs_nil]
+    | [x], _, _ => rw [tlvs_single, tlvs_single]
+    | t :: l :: rest, h1, h2 =>
+      cases f2 with
+      | zero => simp at h2
+      | succ f2 =>
+        rw [tlvs_cons, tlvs_cons]
+        split
+        · rfl
+        · rw [ih f2 _ (by simp at h1 ⊢; omega) (by simp at h2 ⊢; omega)]
+
+theorem parseTLVs_nil : Spec.parseTLVs [] = some [] := rfl
+theorem parseTLVs_single (x : UInt8) : Spec.parseTLVs [x] = none := rfl
+theorem parseTLVs_cons (t l : UInt8) (rest : Bytes) :
+    Spec.parseTLVs (t :: l :: rest) =
+      if rest.length < l.toNat then none
+      else (Spec.parseTLVs (rest.drop l.toNat)).map ((t, rest.take l.toNat) :: ·) := by
+  unfold Spec.parseTLVs
+  show Spec.tlvs (rest.length + 1 + 1) _ = _
+  rw [tlvs_cons]
+  split
+  · rfl
+  · rw [tlvs_fuel (rest.length + 1) (rest.drop l.toNat).length _ (by simp; omega) (Nat.le_refl _)]
+
+/-- wire form of one TLV record -/
+def tlvWire (x : UInt8 × Bytes) : Bytes := [x.1, UInt8.ofNat x.2.length] ++ x.2
+
+theorem parseTLVs_wire (xs : List (UInt8 × Bytes)) (h : ∀ x ∈ xs, x.2.length ≤ 255) :
+    Spec.parseTLVs (xs.map tlvWire).flatten = some xs := by
+  induction xs with
+  | nil => rfl
+  | cons x xs ih =>
+    have hx := h x List.mem_cons_self
+    have ih := ih (fun y hy => h y (List.mem_cons_of_mem _ hy))
+    obtain ⟨t, v⟩ := x
+    simp only at hx
+    have hl : (UInt8.ofNat v.length).toNat = v.length := by
+      rw [UInt8.toNat_ofNat']; exact Nat.mod_eq_of_lt (by omega)
+    simp only [List.map_cons, List.flatten_cons, tlvWire, List.cons_append, List.nil_append]
+    rw [parseTLVs_cons, hl, if_neg (by simp)]
+    simp [ih]
+
+theorem parseTLVs_sound : ∀ (n : Nat) (b : Bytes) (xs : List (UInt8 × Bytes)), b.length ≤ n →
+    Spec.parseTLVs b = some xs → (∀ x ∈ xs, x.2.length ≤ 255) ∧ (xs.map tlvWire).flatten = b := by
+  intro n
+  induction n with
+  | zero =>
+    intro b xs h hp
+    have : b = [] := List.eq_nil_of_length_eq_zero (by omega)
+    subst this
+    cases hp; simp
+  | succ n ih =>
+    intro b xs h hp
+    match b, h, hp with
+    | [], _, hp => cases hp; simp
+    | [x], _, hp => cases hp
+    | t :: l :: rest, h, hp =>
+      rw [parseTLVs_cons] at hp
+      split at hp
+      · cases hp
+      · rename_i hlen
+        cases hr : Spec.parseTLVs (rest.drop l.toNat) with
+        | none => rw [hr] at hp; cases hp
+        | some ys =>
+          rw [hr] at hp
+          simp only [Option.map_some, Option.some.injEq] at hp
+          subst hp
+          have ⟨h1, h2⟩ := ih _ ys (by simp at h ⊢; omega) hr
+          have hl := l.toNat_lt
+          have htl : (rest.take l.toNat).length = l.toNat := by simp; omega
+          constructor
+          · intro x hx
+            rcases List.mem_cons.1 hx with rfl | hx
+            · simp only [htl]; omega
+            · exact h1 x hx
+          · simp only [List.map_cons, List.flatten_cons, h2, tlvWire, htl, UInt8.ofNat_toNat,
+              List.cons_append, List.nil_append, List.take_append_drop]
+
+theorem parseTLVs_eq_nil (b : Bytes) (h : Spec.parseTLVs b = some []) : b = [] := by
+  have := (parseTLVs_sound b.length b [] (Nat.le_refl _) h).2
+  simpa using this.symm
+
+
+/-! ## capabilities / parameters (spec side) -/
+
+def capPair (c : Cap) : UInt8 × Bytes := (c.code, c.value)
+def pairCap (x : UInt8 × Bytes) : Cap := ⟨x.1, x.2⟩
+
+theorem pairCap_capPair (c : Cap) : pairCap (capPair c) = c := rfl
+theorem capPair_pairCap (x : UInt8 × Bytes) : capPair (pairCap x) = x := rfl
+
+theorem parseCaps_eq (b : Bytes) :
+    Spec.parseCaps b = match Spec.parseTLVs b with
+      | some (x :: xs) => some ((x :: xs).map pairCap)
+      | _ => none := by
+  have hf : (fun (x : UInt8 × Bytes) => match x with | (c, v) => (⟨c, v⟩ : Cap)) = pairCap := by
+    funext ⟨c, v⟩; rfl
+  unfold Spec.parseCaps
+  rw [hf]
+  rcases Spec.parseTLVs b with _ | _ | _ <;> rfl
+
+theorem capsWire_eq (cs : List Cap) : Spec.capsWire cs = ((cs.map capPair).map tlvWire).flatten := by
+  unfold Spec.capsWire; rw [List.map_map]; rfl
+
+theorem paramsWire_eq (ps : List (List Cap)) :
+    Spec.paramsWire ps = ((ps.map fun p => ((2 : UInt8), Spec.capsWire p)).map tlvWire).flatten := by
+  unfold Spec.paramsWire; rw [List.map_map]; rfl
+
+theorem parseCaps_wire (cs : List Cap) (hne : cs ≠ []) (h : ∀ c ∈ cs, c.value.length ≤ 255) :
+    Spec.parseCaps (Spec.capsWire cs) = some cs := by
+  rw [parseCaps_eq, capsWire_eq, parseTLVs_wire]
+  · cases cs with
+    | nil => exact absurd rfl hne
+    | cons c cs =>
+      simp only [List.map_cons, List.map_map, pairCap_capPair]
+      have : (pairCap ∘ capPair) = id := by funext x; rfl
+      rw [this, List.map_id]
+  · intro x hx
+    obtain ⟨c, hc, rfl⟩ := List.mem_map.1 hx
+    exact h c hc
+
+theorem parseCaps_sound (b : Bytes) (cs : List Cap) (h : Spec.parseCaps b = some cs) :
+    cs ≠ [] ∧ (∀ c ∈ cs, c.value.length ≤ 255) ∧ Spec.capsWire cs = b := by
+  rw [parseCaps_eq] at h
+  split at h
+  · rename_i x xs hp
+    cases h
+    have ⟨h1, h2⟩ := parseTLVs_sound b.length b _ (Nat.le_refl _) hp
+    refine ⟨by simp, ?_, ?_⟩
+    · intro c hc
+      obtain ⟨y, hy, rfl⟩ := List.mem_map.1 hc
+      exact h1 y hy
+    · rw [capsWire_eq, List.map_map (f := pairCap)]
+      have : (capPair ∘ pairCap) = id := by funext x; rfl
+      rw [this, List.map_id]; exact h2
+  · cases h
+
+theorem parseParams_wire (ps : List (List Cap))
+    (h : ∀ p ∈ ps, p ≠ [] ∧ (∀ c ∈ p, c.value.length ≤ 255)) :
+    Spec.parseParams (ps.map fun p => ((2 : UInt8), Spec.capsWire p)) = some ps := by
+  induction ps with
+  | nil => rfl
+  | cons p ps ih =>
+    have hp := h p List.mem_cons_self
+    have ih := ih (fun q hq => h q (List.mem_cons_of_mem _ hq))
+    simp only [List.map_cons, Spec.parseParams, ne_eq, not_true, if_false, parseCaps_wire p hp.1 hp.2, ih]
+
+theorem parseParams_sound (tl : List (UInt8 × Bytes)) (ps : List (List Cap))
+    (h : Spec.parseParams tl = some ps) :
+    tl = (ps.map fun p => ((2 : UInt8), Spec.capsWire p)) ∧
+      ∀ p ∈ ps, p ≠ [] ∧ (∀ c ∈ p, c.value.length ≤ 255) := by
+  induction tl generalizing ps with
+  | nil => cases h; simp
+  | cons x tl ih =>
+    obtain ⟨t, v⟩ := x
+    simp only [Spec.parseParams] at h
+    split at h
+    · cases h
+    · rename_i ht
+      have ht : t = 2 := by simpa using ht
+      subst ht
+      split at h
+      · rename_i cs rest hc hr
+        cases h
+        have ⟨h1, h2, h3⟩ := parseCaps_sound v cs hc
+        have ⟨h4, h5⟩ := ih rest hr
+        constructor
+        · simp [h3, ← h4]
+        · intro p hp
+          rcases List.mem_cons.1 hp with rfl | hp
+          · exact ⟨h1, h2⟩
+          · exact h5 p hp
+      · cases h
+
+/-! ## OPEN (spec side) -/
+
+theorem n32_u32 (x : UInt32) :
+    UInt32.ofNat (Spec.n32 (UInt8.ofNat (x.toNat / 16777216)) (UInt8.ofNat (x.toNat / 65536 % 256))
+      (UInt8.ofNat (x.toNat / 256 % 256)) (UInt8.ofNat (x.toNat % 256))) = x := by
+  apply UInt32.toNat_inj.1
+  have := x.toNat_lt
+  simp only [Spec.n32, UInt32.toNat_ofNat', UInt8.toNat_ofNat']
+  omega
+
+theorem u16_n16 (a b : UInt8) : Spec.u16 (UInt16.ofNat (Spec.n16 a b)).toNat = [a, b] := by
+  have := a.toNat_lt; have := b.toNat_lt
+  have h : (UInt16.ofNat (Spec.n16 a b)).toNat = a.toNat * 256 + b.toNat := by
+    simp only [Spec.n16, UInt16.toNat_ofNat']; omega
+  rw [h]
+  simp only [Spec.u16, List.cons.injEq, and_true]
+  constructor <;> apply UInt8.toNat_inj.1 <;> simp only [UInt8.toNat_ofNat'] <;> omega
+
+theorem u32_n32 (a b c d : UInt8) : Spec.u32 (UInt32.ofNat (Spec.n32 a b c d)).toNat = [a, b, c, d] := by
+  have := a.toNat_lt; have := b.toNat_lt; have := c.toNat_lt; have := d.toNat_lt
+  have h : (UInt32.ofNat (Spec.n32 a b c d)).toNat = a.toNat * 16777216 + b.toNat * 65536 + c.toNat * 256 + d.toNat := by
+    simp only [Spec.n32, UInt32.toNat_ofNat']; omega
+  rw [h]
+  simp only [Spec.u32, List.cons.injEq, and_true]
+  refine ⟨?_, ?_, ?_, ?_⟩ <;> apply UInt8.toNat_inj.1 <;> simp only [UInt8.toNat_ofNat'] <;> omega
+
+theorem parseOpen_cons (v a1 a2 h1 h2 i1 i2 i3 i4 opl : UInt8) (rest : Bytes) :
+    Spec.parseOpen (v :: a1 :: a2 :: h1 :: h2 :: i1 :: i2 :: i3 :: i4 :: opl :: rest) =
+      if opl.toNat ≠ rest.length then none else
+      match Spec.parseTLVs rest with
+      | some (p :: ps) =>
+        (Spec.parseParams (p :: ps)).map fun params =>
+          ⟨v, UInt16.ofNat (Spec.n16 a1 a2), UInt16.ofNat (Spec.n16 h1 h2), UInt32.ofNat (Spec.n32 i1 i2 i3 i4), params⟩
+      | _ => none := rfl
+
+theorem parseOpen_some (v a1 a2 h1 h2 i1 i2 i3 i4 opl : UInt8) (rest : Bytes)
+    (tl : List (UInt8 × Bytes)) (params : List (List Cap))
+    (hl : opl.toNat = rest.length) (ht : Spec.parseTLVs rest = some tl) (hne : tl ≠ [])
+    (hp : Spec.parseParams tl = some params) :
+    Spec.parseOpen (v :: a1 :: a2 :: h1 :: h2 :: i1 :: i2 :: i3 :: i4 :: opl :: rest) =
+      some ⟨v, UInt16.ofNat (Spec.n16 a1 a2), UInt16.ofNat (Spec.n16 h1 h2), UInt32.ofNat (Spec.n32 i1 i2 i3 i4), params⟩ := by
+  rw [parseOpen_cons, if_neg (by simpa using hl), ht]
+  cases tl with
+  | nil => exact absurd rfl hne
+  | cons p ps => simp only [hp, Option.map_some]
+
+theorem parseOpen_inv (b : Bytes) (o : OpenMsg) (h : Spec.parseOpen b = some o) :
+    ∃ v a1 a2 h1 h2 i1 i2 i3 i4 opl rest tl,
+      b = v :: a1 :: a2 :: h1 :: h2 :: i1 :: i2 :: i3 :: i4 :: opl :: rest ∧
+      opl.toNat = rest.length ∧ Spec.parseTLVs rest = some tl ∧ tl ≠ [] ∧
+      Spec.parseParams tl = some o.params ∧
+      o = ⟨v, UInt16.ofNat (Spec.n16 a1 a2), UInt16.ofNat (Spec.n16 h1 h2), UInt32.ofNat (Spec.n32 i1 i2 i3 i4), o.params⟩ := by
+  unfold Spec.parseOpen at h
+  split at h
+  · rename_i v a1 a2 h1 h2 i1 i2 i3 i4 opl rest
+    split at h
+    · cases h
+    · rename_i hl
+      split at h
+      · rename_i p ps ht
+        cases hp : Spec.parseParams (p :: ps) with
+        | none => rw [hp] at h; cases h
+        | some params =>
+          rw [hp] at h
+          simp only [Option.map_some, Option.some.injEq] at h
+          subst h
+          exact ⟨v, a1, a2, h1, h2, i1, i2, i3, i4, opl, rest, p :: ps, rfl, by simpa using hl, ht, by simp, hp, rfl⟩
+      · cases h
+  · cases h
+
+theorem open_spec_rt' (o : OpenMsg) (h : Spec.Representable o) : Spec.parseOpen (Spec.openBody o) = some o := by
+  obtain ⟨hne, hall, hlen⟩ := h
+  obtain ⟨v, asn, hold, id, params⟩ := o
+  simp only at hne hall hlen
+  have hopl : (UInt8.ofNat (Spec.paramsWire params).length).toNat = (Spec.paramsWire params).length := by
+    rw [UInt8.toNat_ofNat']; exact Nat.mod_eq_of_lt (by omega)
+  have ht : Spec.parseTLVs (Spec.paramsWire params) = some (params.map fun p => ((2 : UInt8), Spec.capsWire p)) := by
+    rw [paramsWire_eq, parseTLVs_wire]
+    intro x hx
+    obtain ⟨p, hp, rfl⟩ := List.mem_map.1 hx
+    exact (hall p hp).2.2
+  have hp := parseParams_wire params (fun p hp => ⟨(hall p hp).1, (hall p hp).2.1⟩)
+  have := parseOpen_some v (UInt8.ofNat (asn.toNat / 256)) (UInt8.ofNat (asn.toNat % 256))
+    (UInt8.ofNat (hold.toNat / 256)) (UInt8.ofNat (hold.toNat % 256))
+    (UInt8.ofNat (id.toNat / 16777216)) (UInt8.ofNat (id.toNat / 65536 % 256))
+    (UInt8.ofNat (id.toNat / 256 % 256)) (UInt8.ofNat (id.toNat % 256))
+    (UInt8.ofNat (Spec.paramsWire params).length) (Spec.paramsWire params) _ params hopl ht
+    (by cases params with
+        | nil => exact absurd rfl hne
+        | cons _ _ => simp) hp
+  rw [n16_u16, n16_u16, n32_u32] at this
+  exact this
+
+theorem open_spec_tr' (b : Bytes) (o : OpenMsg) (h : Spec.parseOpen b = some o) :
+    Spec.Representable o ∧ Spec.openBody o = b := by
+  obtain ⟨v, a1, a2, h1, h2, i1, i2, i3, i4, opl, rest, tl, rfl, hl, ht, hne, hp, ho⟩ := parseOpen_inv b o h
+  have ⟨ht1, ht2⟩ := parseTLVs_sound rest.length rest tl (Nat.le_refl _) ht
+  have ⟨hp1, hp2⟩ := parseParams_sound tl o.params hp
+  have hw : Spec.paramsWire o.params = rest := by rw [paramsWire_eq, ← hp1]; exact ht2
+  have hopl := opl.toNat_lt
+  constructor
+  · refine ⟨?_, ?_, ?_⟩
+    · intro hnil; rw [hnil] at hp1; exact hne hp1
+    · intro p hpm
+      refine ⟨(hp2 p hpm).1, (hp2 p hpm).2, ?_⟩
+      have : ((2 : UInt8), Spec.capsWire p) ∈ tl := by
+        rw [hp1]; exact List.mem_map.2 ⟨p, hpm, rfl⟩
+      exact ht1 _ this
+    · rw [hw]; omega
+  · rw [ho]
+    simp only [Spec.openBody, hw, u16_n16, u32_n32, ← hl, UInt8.ofNat_toNat]
+    rfl
+
+/-! ## the model's TLV loops -/
+
+theorem toNat_add2 (l : UInt8) (h : l.toNat + 2 < 256) : (l + 2).toNat = l.toNat + 2 := by
+  rw [UInt8.toNat_add]
+  show (l.toNat + 2) % 256 = _
+  exact Nat.mod_eq_of_lt h
+
+theorem step_value (t l : UInt8) (tail : Bytes) (h1 : l.toNat ≤ tail.length) (h2 : tail.length + 2 ≤ 255) :
+    (if l > 0 then slice? (t :: l :: tail) 2 (l + 2).toNat else some []) = some (tail.take l.toNat) := by
+  have hl := toNat_add2 l (by omega)
+  by_cases h0 : l > 0
+  · rw [if_pos h0, hl]
+    unfold slice?
+    rw [if_pos (by simp; omega)]
+    simp
+  · rw [if_neg h0]
+    have : l.toNat = 0 := by
+      have : ¬ ((0 : UInt8).toNat < l.toNat) := fun h => h0 (UInt8.lt_iff_toNat_lt.2 h)
+      have h00 : (0 : UInt8).toNat = 0 := rfl
+      omega
+    rw [this]; rfl
+
+theorem step_rest (t l : UInt8) (tail : Bytes) (h1 : l.toNat ≤ tail.length) :
+    sliceFrom? (t :: l :: tail) (2 + l.toNat) = some (tail.drop l.toNat) := by
+  unfold sliceFrom?
+  rw [if_pos (by simp; omega)]
+  simp [Nat.add_comm 2]
+
+theorem decodeCapsLoop_cons (fuel : Nat) (t l : UInt8) (tail : Bytes) (acc : List Cap)
+    (h1 : l.toNat ≤ tail.length) (h2 : tail.length + 2 ≤ 255) :
+    decodeCapsLoop (fuel + 1) (t :: l :: tail) acc =
+      if (tail.drop l.toNat).length = 0 then .ok (acc ++ [⟨t, tail.take l.toNat⟩])
+      else decodeCapsLoop fuel (tail.drop l.toNat) (acc ++ [⟨t, tail.take l.toNat⟩]) := by
+  rw [decodeCapsLoop]
+  simp only [step_value t l tail h1 h2, step_rest t l tail h1]
+  rw [if_neg (by simp; omega)]
+
+theorem decodeCapsLoop_short (fuel : Nat) (t l : UInt8) (tail : Bytes) (acc : List Cap)
+    (h : tail.length < l.toNat) :
+    decodeCapsLoop (fuel + 1) (t :: l :: tail) acc = nerr 2 0 [] := by
+  rw [decodeCapsLoop]
+  simp only []
+  rw [if_pos (by simp; omega)]
+  rfl
+
+theorem decodeCapsLoop_single (fuel : Nat) (x : UInt8) (acc : List Cap) :
+    decodeCapsLoop (fuel + 1) [x] acc = nerr 2 0 [] := rfl
+
+theorem decodeCapsLoop_nil (fuel : Nat) (acc : List Cap) :
+    decodeCapsLoop (fuel + 1) [] acc = nerr 2 0 [] := rfl
+
+
+theorem decodeCapsLoop_spec : ∀ (fuel : Nat) (b : Bytes) (acc : List Cap),
+    b.length < fuel → b.length ≤ 255 → b ≠ [] →
+    decodeCapsLoop fuel b acc = match Spec.parseTLVs b with
+      | some tl => .ok (acc ++ tl.map pairCap)
+      | none => nerr 2 0 [] := by
+  intro fuel
+  induction fuel with
+  | zero => intro b acc h; omega
+  | succ fuel ih =>
+    intro b acc hf hb hne
+    match b, hf, hb, hne with
+    | [], _, _, hne => exact absurd rfl hne
+    | [x], _, _, _ => rfl
+    | t :: l :: tail, hf, hb, _ =>
+      simp only [List.length_cons] at hf hb
+      rw [parseTLVs_cons]
+      by_cases hs : tail.length < l.toNat
+      · rw [decodeCapsLoop_short _ _ _ _ _ hs, if_pos hs]
+      · rw [decodeCapsLoop_cons _ _ _ _ _ (by omega) (by omega), if_neg hs]
+        by_cases hd : tail.drop l.toNat = []
+        · rw [hd]; simp [parseTLVs_nil, pairCap]
+        · rw [if_neg (fun h => hd (List.eq_nil_of_length_eq_zero h)), ih _ _ (by simp; omega) (by simp; omega) hd]
+          cases Spec.parseTLVs (tail.drop l.toNat) with
+          | none => rfl
+          | some tl => simp [pairCap]
+
+theorem decodeCaps_eq (b : Bytes) (hb : b.length ≤ 255) :
+    decodeCaps b = match Spec.parseCaps b with
+      | some cs => .ok cs
+      | none => nerr 2 0 [] := by
+  unfold decodeCaps
+  by_cases hne : b = []
+  · subst hne; rfl
+  · rw [decodeCapsLoop_spec _ b [] (Nat.lt_succ_self _) hb hne, parseCaps_eq]
+    cases h : Spec.parseTLVs b with
+    | none => rfl
+    | some tl =>
+      cases tl with
+      | nil => exact absurd (parseTLVs_eq_nil b h) hne
+      | cons x xs => simp
+
+
+theorem decodeParamsLoop_cons (fuel : Nat) (t l : UInt8) (tail : Bytes) (acc : List (List Cap))
+    (h1 : l.toNat ≤ tail.length) (h2 : tail.length + 2 ≤ 255) :
+    decodeParamsLoop (fuel + 1) (t :: l :: tail) acc =
+      if t = 2 then
+        match Spec.parseCaps (tail.take l.toNat) with
+        | some cs =>
+          if (tail.drop l.toNat).length = 0 then .ok (acc ++ [cs])
+          else decodeParamsLoop fuel (tail.drop l.toNat) (acc ++ [cs])
+        | none => nerr 2 0 []
+      else nerr 2 4 [] := by
+  rw [decodeParamsLoop]
+  simp only [step_value t l tail h1 h2, step_rest t l tail h1]
+  rw [if_neg (by simp; omega), decodeCaps_eq _ (by simp; omega)]
+  by_cases ht : t = Gen.capabilityOptionalParamType
+  · have ht' : t = 2 := ht
+    rw [if_pos ht, if_pos ht']
+    cases Spec.parseCaps (tail.take l.toNat) <;> rfl
+  · have ht' : ¬ t = 2 := ht
+    rw [if_neg ht, if_neg ht']; rfl
+
+theorem decodeParamsLoop_short (fuel : Nat) (t l : UInt8) (tail : Bytes) (acc : List (List Cap))
+    (h : tail.length < l.toNat) :
+    decodeParamsLoop (fuel + 1) (t :: l :: tail) acc = nerr 2 0 [] := by
+  rw [decodeParamsLoop]
+  simp only []
+  rw [if_pos (by simp; omega)]
+  rfl
+
+theorem decodeParamsLoop_single (fuel : Nat) (x : UInt8) (acc : List (List Cap)) :
+    decodeParamsLoop (fuel + 1) [x] acc = nerr 2 0 [] := rfl
+
+theorem decodeParamsLoop_nil (fuel : Nat) (acc : List (List Cap)) :
+    decodeParamsLoop (fuel + 1) [] acc = nerr 2 0 [] := rfl
+
+/-! ### `walkParams` -/
+
+theorem walkParams_nil (f : Nat) : Spec.walkParams f [] = [] := by cases f <;> rfl
+theorem walkParams_single (f : Nat) (x : UInt8) : Spec.walkParams f [x] = [(2, 0)] := by cases f <;> rfl
+theorem walkParams_cons (f : Nat) (t l : UInt8) (rest : Bytes) :
+    Spec.walkParams (f + 1) (t :: l :: rest) =
+      if rest.length < l.toNat then [(2, 0)]
+      else
+        (if t ≠ 2 then [(2, 4)] else if (Spec.parseCaps (rest.take l.toNat)).isNone then [(2, 0)] else []) ++
+        Spec.walkParams f (rest.drop l.toNat) := rfl
+
+theorem walkParams_fuel : ∀ (f1 f2 : Nat) (b : Bytes), b.length ≤ f1 → b.length ≤ f2 →
+    Spec.walkParams f1 b = Spec.walkParams f2 b := by
+  intro f1
+  induction f1 with
+  | zero =>
+    intro f2 b h1 _
+    have : b = [] := List.eq_nil_of_length_eq_zero (by omega)
+    subst this; rw [walkParams_nil, walkParams_nil]
+  | succ f1 ih =>
+    intro f2 b h1 h2
+    match b, h1, h2 with
+    | [], _, _ => rw [walkParams_nil, walkParams_nil]
+    | [x], _, _ => rw [walkParams_single, walkParams_single]
+    | t :: l :: rest, h1, h2 =>
+      cases f2 with
+      | zero => simp at h2
+      | succ f2 =>
+        rw [walkParams_cons, walkParams_cons]
+        split
+        · rfl
+        · rw [ih f2 _ (by simp at h1 ⊢; omega) (by simp at h2 ⊢; omega)]
+
+/-- `walkParams` with its canonical fuel -/
+def walk (b : Bytes) : List (Nat × Nat) := Spec.walkParams b.length b
+
+theorem walk_single (x : UInt8) : walk [x] = [(2, 0)] := rfl
+theorem walk_cons (t l : UInt8) (rest : Bytes) :
+    walk (t :: l :: rest) =
+      if rest.length < l.toNat then [(2, 0)]
+      else
+        (if t ≠ 2 then [(2, 4)] else if (Spec.parseCaps (rest.take l.toNat)).isNone then [(2, 0)] else []) ++
+        walk (rest.drop l.toNat) := by
+  unfold walk
+  show Spec.walkParams (rest.length + 1 + 1) _ = _
+  rw [walkParams_cons]
+  split
+  · rfl
+  · rw [walkParams_fuel (rest.length + 1) (rest.drop l.toNat).length _ (by simp; omega) (Nat.le_refl _)]
+
+
+theorem parseParams_cons_some (v : Bytes) (tl : List (UInt8 × Bytes)) (cs : List Cap) (rest : List (List Cap))
+    (h1 : Spec.parseCaps v = some cs) (h2 : Spec.parseParams tl = some rest) :
+    Spec.parseParams ((2, v) :: tl) = some (cs :: rest) := by
+  simp [Spec.parseParams, h1, h2]
+
+theorem parseParams_cons_none1 (v : Bytes) (tl : List (UInt8 × Bytes))
+    (h1 : Spec.parseCaps v = none) : Spec.parseParams ((2, v) :: tl) = none := by
+  simp [Spec.parseParams, h1]
+
+theorem parseParams_cons_none2 (v : Bytes) (tl : List (UInt8 × Bytes))
+    (h2 : Spec.parseParams tl = none) : Spec.parseParams ((2, v) :: tl) = none := by
+  simp only [Spec.parseParams, h2]
+  split
+  · simp_all
+  · split <;> simp_all
+
+theorem parseParams_cons_ne (t : UInt8) (v : Bytes) (tl : List (UInt8 × Bytes)) (h : t ≠ 2) :
+    Spec.parseParams ((t, v) :: tl) = none := by
+  simp [Spec.parseParams, h]
+
+theorem decodeParamsLoop_spec : ∀ (fuel : Nat) (b : Bytes) (acc : List (List Cap)),
+    b.length < fuel → b.length ≤ 255 → b ≠ [] →
+    (∃ tl ps, Spec.parseTLVs b = some tl ∧ Spec.parseParams tl = some ps ∧
+        decodeParamsLoop fuel b acc = .ok (acc ++ ps)) ∨
+    (∃ sub : UInt8, decodeParamsLoop fuel b acc = nerr 2 sub [] ∧ (2, sub.toNat) ∈ walk b ∧
+        ∀ tl, Spec.parseTLVs b = some tl → Spec.parseParams tl = none) := by
+  intro fuel
+  induction fuel with
+  | zero => intro b acc h; omega
+  | succ fuel ih =>
+    intro b acc hf hb hne
+    match b, hf, hb, hne with
+    | [], _, _, hne => exact absurd rfl hne
+    | [x], _, _, _ =>
+      right
+      exact ⟨0, rfl, by simp [walk_single], by intro tl h; cases h⟩
+    | t :: l :: tail, hf, hb, _ =>
+      simp only [List.length_cons] at hf hb
+      rw [parseTLVs_cons, walk_cons]
+      by_cases hs : tail.length < l.toNat
+      · right
+        rw [decodeParamsLoop_short _ _ _ _ _ hs, if_pos hs, if_pos hs]
+        exact ⟨0, rfl, by simp, by intro tl h; cases h⟩
+      · rw [decodeParamsLoop_cons _ _ _ _ _ (by omega) (by omega), if_neg hs, if_neg hs]
+        by_cases ht : t = 2
+        · subst ht
+          rw [if_pos rfl]
+          cases hc : Spec.parseCaps (tail.take l.toNat) with
+          | none =>
+            right
+            refine ⟨0, rfl, by simp, ?_⟩
+            intro tl h
+            cases hr : Spec.parseTLVs (tail.drop l.toNat) with
+            | none => rw [hr] at h; cases h
+            | some tl' =>
+              rw [hr] at h; cases h
+              exact parseParams_cons_none1 _ _ hc
+          | some cs =>
+            simp only []
+            by_cases hd : tail.drop l.toNat = []
+            · left
+              rw [hd]
+              refine ⟨[(2, tail.take l.toNat)], [cs], by simp [parseTLVs_nil], ?_, by simp⟩
+              exact parseParams_cons_some _ _ _ _ hc rfl
+            · rw [if_neg (fun h => hd (List.eq_nil_of_length_eq_zero h))]
+              rcases ih (tail.drop l.toNat) (acc ++ [cs]) (by simp; omega) (by simp; omega) hd with
+                ⟨tl', ps', h1, h2, h3⟩ | ⟨sub, h1, h2, h3⟩
+              · left
+                refine ⟨(2, tail.take l.toNat) :: tl', cs :: ps', by simp [h1], ?_, by simp [h3]⟩
+                exact parseParams_cons_some _ _ _ _ hc h2
+              · right
+                refine ⟨sub, h1, List.mem_append_right _ h2, ?_⟩
+                intro tl h
+                cases hr : Spec.parseTLVs (tail.drop l.toNat) with
+                | none => rw [hr] at h; cases h
+                | some tl' =>
+                  rw [hr] at h; cases h
+                  exact parseParams_cons_none2 _ _ (h3 tl' hr)
+        · right
+          rw [if_neg ht]
+          refine ⟨4, rfl, by simp [ht], ?_⟩
+          intro tl h
+          cases hr : Spec.parseTLVs (tail.drop l.toNat) with
+          | none => rw [hr] at h; cases h
+          | some tl' =>
+            rw [hr] at h; cases h
+            exact parseParams_cons_ne _ _ _ ht
+
+
+/-! ## `decodeOpen` against the spec -/
+
+theorem decodeOpen_cons (v a1 a2 h1 h2 i1 i2 i3 i4 opl : UInt8) (rest : Bytes) :
+    decodeOpen (v :: a1 :: a2 :: h1 :: h2 :: i1 :: i2 :: i3 :: i4 :: opl :: rest) =
+      if opl.toNat ≠ rest.length then nerr 2 0 []
+      else
+        match decodeParams rest with
+        | .ok ps => .ok ⟨v, be16 a1 a2, be16 h1 h2, be32 i1 i2 i3 i4, ps⟩
+        | .err e => .err e
+        | .panic => .panic := rfl
+
+theorem openStructFaults_cons (v a1 a2 h1 h2 i1 i2 i3 i4 opl : UInt8) (rest : Bytes) :
+    Spec.openStructFaults (v :: a1 :: a2 :: h1 :: h2 :: i1 :: i2 :: i3 :: i4 :: opl :: rest) =
+      if opl.toNat ≠ rest.length then [(2, 0)]
+      else if rest.length = 0 then [(2, 0)]
+      else walk rest := rfl
+
+theorem decodeOpen_cases_cons (v a1 a2 h1 h2 i1 i2 i3 i4 opl : UInt8) (rest : Bytes) :
+    let b := v :: a1 :: a2 :: h1 :: h2 :: i1 :: i2 :: i3 :: i4 :: opl :: rest
+    (∃ o, decodeOpen b = .ok o ∧ Spec.parseOpen b = some o) ∨
+    (∃ n, decodeOpen b = .err (.notif n true) ∧ Spec.parseOpen b = none ∧
+      (n.code.toNat, n.sub.toNat) ∈ Spec.openStructFaults b) := by
+  intro b
+  show (∃ o, decodeOpen (v :: a1 :: a2 :: h1 :: h2 :: i1 :: i2 :: i3 :: i4 :: opl :: rest) = .ok o ∧
+      Spec.parseOpen (v :: a1 :: a2 :: h1 :: h2 :: i1 :: i2 :: i3 :: i4 :: opl :: rest) = some o) ∨
+    (∃ n, decodeOpen (v :: a1 :: a2 :: h1 :: h2 :: i1 :: i2 :: i3 :: i4 :: opl :: rest) = .err (.notif n true) ∧
+      Spec.parseOpen (v :: a1 :: a2 :: h1 :: h2 :: i1 :: i2 :: i3 :: i4 :: opl :: rest) = none ∧
+      (n.code.toNat, n.sub.toNat) ∈
+        Spec.openStructFaults (v :: a1 :: a2 :: h1 :: h2 :: i1 :: i2 :: i3 :: i4 :: opl :: rest))
+  rw [decodeOpen_cons, parseOpen_cons, openStructFaults_cons]
+  by_cases hl : opl.toNat ≠ rest.length
+  · right
+    rw [if_pos hl, if_pos hl, if_pos hl]
+    exact ⟨⟨2, 0, []⟩, rfl, rfl, by simp⟩
+  · rw [if_neg hl, if_neg hl, if_neg hl]
+    have hl : opl.toNat = rest.length := by simpa using hl
+    have hopl := opl.toNat_lt
+    by_cases hr : rest = []
+    · right
+      subst hr
+      exact ⟨⟨2, 0, []⟩, rfl, rfl, by simp⟩
+    · rw [if_neg (fun h => hr (List.eq_nil_of_length_eq_zero h))]
+      unfold decodeParams
+      rcases decodeParamsLoop_spec (rest.length + 1) rest [] (Nat.lt_succ_self _) (by omega) hr with
+        ⟨tl, ps, h1, h2, h3⟩ | ⟨sub, h1, h2, h3⟩
+      · left
+        rw [h3, h1]
+        cases tl with
+        | nil => exact absurd (parseTLVs_eq_nil rest h1) hr
+        | cons p tl' =>
+          simp only [h2, Option.map_some, List.nil_append]
+          exact ⟨_, rfl, rfl⟩
+      · right
+        rw [h1]
+        refine ⟨⟨2, sub, []⟩, rfl, ?_, h2⟩
+        cases ht : Spec.parseTLVs rest with
+        | none => rfl
+        | some tl =>
+          cases tl with
+          | nil => rfl
+          | cons p tl' => simp only [h3 _ ht, Option.map_none]
+
+theorem decodeOpen_cases (b : Bytes) :
+    (∃ o, decodeOpen b = .ok o ∧ Spec.parseOpen b = some o) ∨
+    (∃ n, decodeOpen b = .err (.notif n true) ∧ Spec.parseOpen b = none ∧
+      (n.code.toNat, n.sub.toNat) ∈ Spec.openStructFaults b) := by
+  match b with
+  | v :: a1 :: a2 :: h1 :: h2 :: i1 :: i2 :: i3 :: i4 :: opl :: rest =>
+    exact decodeOpen_cases_cons v a1 a2 h1 h2 i1 i2 i3 i4 opl rest
+  | [] | [_] | [_, _] | [_, _, _] | [_, _, _, _] | [_, _, _, _, _] | [_, _, _, _, _, _]
+  | [_, _, _, _, _, _, _] | [_, _, _, _, _, _, _, _] | [_, _, _, _, _, _, _, _, _] =>
+    right
+    exact ⟨⟨1, 2, _⟩, rfl, rfl, by simp [Spec.openStructFaults]⟩
+
+
+/-! ## the OPEN encoder -/
+
+/-- what `Spec.Representable` asks of one capabilities parameter -/
+def ParamOK (p : List Cap) : Prop :=
+  p ≠ [] ∧ (∀ c ∈ p, c.value.length ≤ 255) ∧ (Spec.capsWire p).length ≤ 255
+
+theorem encodeCaps_flat (cs : List Cap) : (cs.map encodeCap).flatten = Spec.capsWire cs := rfl
+
+theorem encodeCapsParam_ok (cs : List Cap) (h : ParamOK cs) :
+    encodeCapsParam cs = some (Spec.paramWire cs) := by
+  obtain ⟨h1, h2, h3⟩ := h
+  unfold encodeCapsParam
+  rw [encodeCaps_flat]
+  have hpos : cs.length > 0 := List.length_pos_iff.2 h1
+  have hany : (cs.any fun c => decide (c.value.length > 255)) = false := by
+    rw [List.any_eq_false]; intro c hc; simpa using h2 c hc
+  rw [if_pos hpos, hany, if_neg (by simp)]
+  simp only []
+  rw [if_neg (by omega)]; rfl
+
+theorem encodeCapsParam_bad (cs : List Cap) (h : ¬ ParamOK cs) : encodeCapsParam cs = none := by
+  unfold encodeCapsParam
+  rw [encodeCaps_flat]
+  by_cases h1 : cs.length > 0
+  · rw [if_pos h1]
+    cases hany : (cs.any fun c => decide (c.value.length > 255)) with
+    | true => rfl
+    | false =>
+      rw [if_neg (by simp)]
+      simp only []
+      by_cases h3 : (Spec.capsWire cs).length > 255
+      · rw [if_pos h3]
+      · exfalso; apply h
+        refine ⟨List.length_pos_iff.1 h1, ?_, by omega⟩
+        intro c hc
+        have := List.any_eq_false.1 hany c hc
+        simpa using this
+  · rw [if_neg h1]
+
+theorem encodeParams_ok (ps : List (List Cap)) (h : ∀ p ∈ ps, ParamOK p) :
+    encodeParams ps = some (Spec.paramsWire ps) := by
+  induction ps with
+  | nil => rfl
+  | cons p ps ih =>
+    rw [encodeParams, encodeCapsParam_ok p (h p List.mem_cons_self),
+      ih (fun q hq => h q (List.mem_cons_of_mem _ hq))]
+    simp [Spec.paramsWire]
+
+theorem encodeParams_bad (ps : List (List Cap)) (h : ¬ ∀ p ∈ ps, ParamOK p) :
+    encodeParams ps = none := by
+  induction ps with
+  | nil => exact absurd (by simp) h
+  | cons p ps ih =>
+    rw [encodeParams]
+    by_cases h1 : ParamOK p
+    · rw [encodeCapsParam_ok p h1, ih]
+      intro h2; apply h
+      intro q hq
+      rcases List.mem_cons.1 hq with rfl | hq
+      · exact h1
+      · exact h2 q hq
+    · rw [encodeCapsParam_bad p h1]
+
+theorem encodeOpenBody_ok (o : OpenMsg) (h1 : ∀ p ∈ o.params, ParamOK p)
+    (h2 : (Spec.paramsWire o.params).length ≤ 255) :
+    encodeOpenBody o = some (Spec.openBody o) := by
+  unfold encodeOpenBody
+  rw [encodeParams_ok _ h1]
+  simp only []
+  rw [if_neg (by omega)]; rfl
+
+theorem encodeOpenBody_bad (o : OpenMsg)
+    (h : ¬ ((∀ p ∈ o.params, ParamOK p) ∧ (Spec.paramsWire o.params).length ≤ 255)) :
+    encodeOpenBody o = none := by
+  unfold encodeOpenBody
+  by_cases h1 : ∀ p ∈ o.params, ParamOK p
+  · rw [encodeParams_ok _ h1]
+    simp only []
+    rw [if_pos (by
+      have : ¬ (Spec.paramsWire o.params).length ≤ 255 := fun h2 => h ⟨h1, h2⟩
+      omega)]
+  · rw [encodeParams_bad _ h1]
+
+theorem representable_iff (o : OpenMsg) :
+    Spec.Representable o ↔ o.params ≠ [] ∧ (∀ p ∈ o.params, ParamOK p) ∧ (Spec.paramsWire o.params).length ≤ 255 :=
+  Iff.rfl
+
+
 end CoreBGP.Lemmas
